@@ -292,7 +292,9 @@ class incref_forward_block_op(blocker_base_op):
         if self.blocker not in plan.blockers_refcnt:
             l = plan.state.add_limiter(self.blocker, self.key)
         else:
-            l = []
+            # already a limiter- but packages can have been forced in past it
+            # since (installed packages loaded to make just this conflict visible).
+            l = plan.state.find_atom_matches(self.blocker, self.key)
         plan.rev_blockers.setdefault(self.choices, []).append((self.blocker, self.key))
         plan.blockers_refcnt.add(self.blocker)
         return l
